@@ -22,8 +22,8 @@ ASSUMPTIONS = [
     "coverage and exclusivity by R3 (vf/ref/acl.py); cases where the ideal coverage and the implementation's documented winner rule disagree (known findings of C06) are skipped and counted",
     "programs never yield rows in negated form",
 ]
-FLOORS = {"quick": {"runs": 1200, "outcome_ok": 300, "outcome_generator_error": 150, "outcome_not_exclusive": 60, "block_contexts_entered": 2000},
-          "thorough": {"runs": 50000, "outcome_ok": 12000, "outcome_generator_error": 6000, "outcome_not_exclusive": 2500, "block_contexts_entered": 80000}}
+FLOORS = {"quick": {"runs": 1200, "outcome_ok": 300, "outcome_generator_error": 150, "outcome_not_exclusive": 60, "block_contexts_entered": 2000, "annotated_runs": 80, "annotated_rows": 200},
+          "thorough": {"runs": 50000, "outcome_ok": 12000, "outcome_generator_error": 6000, "outcome_not_exclusive": 2500, "block_contexts_entered": 80000, "annotated_runs": 3000, "annotated_rows": 8000}}
 VENDORS = ["huawei", "cisco", "arista", "nexus"]
 HEADS = ["a", "b", "c", "interface", "router", "x"]
 KEYS = ["k1", "k2", "e1", "10"]
@@ -372,7 +372,35 @@ def check_case(seed, acc):
     if exp[0] == "ok" and got[1] != exp[1]:
         acc.violation("C10/new-is-not-the-union", "the desired configuration is not the union of the generators' outputs (each yielded line once, under the block path it was yielded in)",
                       dict(w, expected_tree=exp[1]))
+        return w
+    if exp[0] == "ok" and seed % 3 == 0:
+        # the same run with --annotate: every line carries where it was yielded; without the annotations it is the same configuration
+        from annet.annlib.lib import strip_annotation
+        real2 = [H.make_partial(g["name"], vname, t, make_run(g["program"], [0])) for g, t in zip(gens, texts)]
+
+        def strip(tree):
+            return [[strip_annotation(r), strip(c)] for r, c in tree]
+        try:
+            res2 = H.old_new(dev, real2, "", no_acl_exclusive=False, add_annotations=True)
+            if res2.err is not None:
+                raise res2.err
+            got2 = plain(res2.new)
+        except Exception as e:
+            acc.violation("C10/annotated-run-fails", "the run that succeeds plainly fails when annotations are requested", dict(w, error="%s: %s" % (type(e).__name__, str(e)[:200])))
+            return w
+        acc.count("annotated_runs")
+        n_ann = sum(1 for r in c10_rows(got2) if strip_annotation(r) != r)
+        acc.count("annotated_rows", n_ann)
+        if strip(got2) != exp[1]:
+            acc.violation("C10/annotated-run-differs", "with annotations requested the desired configuration (annotations removed) is not the union of the generators' outputs",
+                          dict(w, expected_tree=exp[1], annotated_tree=got2))
     return w
+
+
+def c10_rows(tree):
+    for r, c in tree:
+        yield r
+        yield from c10_rows(c)
 
 
 def run_shard(spec, acc):
